@@ -1970,6 +1970,8 @@ class Inliner:
             cands = {q: prog.functions[q] for q in cands if q in prog.functions}
             if not any_change:
                 break
+        if getattr(prog, 'desugared', None):
+            self.report['desugared'] = prog.desugared
         self._finish_moves()
         self._drop_unreferenced(cands)
         self._condition_locals()
